@@ -20,8 +20,8 @@ use tonic::metadata::{AsciiMetadataKey, AsciiMetadataValue, BinaryMetadataValue,
 pub fn run(cfg: &RunCfg) -> Ctx {
     let mut all = Ctx::new();
     #[cfg(feature = "full")]
-    all.merge(par_cases(cfg, "wire", cfg.n(3000, 16 * 25_000), || (), |_, rng, ctx, i| wire_case(rng, ctx, i)));
-    all.merge(par_cases(cfg, "accessors", cfg.n(5000, 16 * 50_000), || (), |_, rng, ctx, _| accessor_case(rng, ctx)));
+    all.merge(par_cases(cfg, "wire", cfg.n(12_000, 16 * 25_000), || (), |_, rng, ctx, i| wire_case(rng, ctx, i)));
+    all.merge(par_cases(cfg, "accessors", cfg.n(25_000, 16 * 50_000), || (), |_, rng, ctx, _| accessor_case(rng, ctx)));
     for k in ["acc.bin_len_mod3.0", "acc.bin_len_mod3.1", "acc.bin_len_mod3.2", "acc.padded_peer_value", "acc.invalid_base64_value", "acc.repeated_key"] {
         all.floor(k, 10);
     }
